@@ -70,17 +70,26 @@ def run_case(case):
     sess = gen.make_session(impl, dims, case.get("seed", "comp%d" % case.get("mask", 0)))
     try:
         cmd = "cmd-%s" % (case.get("i", case.get("mask")))
+        if case["kind"] == "rand" and rng.random() < 0.15:
+            cmd = "é€ 𝄞 " + cmd          # commands are sent UTF-8 encoded
         if case["kind"] == "rand" and dims["maxdata"] <= 8192 and rng.random() < 0.08:
             cmd = cmd + " " + "y" * (dims["maxdata"] + rng.choice([-12, -8, -7, -6, -1, 2]) - len(cmd) - 1)
-        dest = (b"root:" if api == "root" else (b"exec:" if api == "exec_out" else b"shell:") + cmd.encode())
+        dest = (b"root:" if api == "root" else (b"exec:" if api == "exec_out" else b"shell:") + cmd.encode("utf8"))
         sess.sim.scripts[dest] = list(chunks)
         n_before = len(sess.sim.all_streams)
+        kw = {}
+        if case["kind"] == "rand":
+            # generous explicit timeouts must not change anything against a cooperating device
+            if rng.random() < 0.3:
+                kw["read_timeout_s"] = rng.choice([3, 10, 60])
+            if rng.random() < 0.3:
+                kw["transport_timeout_s"] = rng.choice([1, 20, 0.5])
+            if rng.random() < 0.3 and api != "streaming_shell":
+                kw["timeout_s"] = rng.choice([5, 100, 2])
         if api == "root":
-            out = sess.call("root")
-        elif api == "streaming_shell":
-            out = sess.call(api, cmd, decode=decode)
+            out = sess.call("root", **kw)
         else:
-            out = sess.call(api, cmd, decode=decode)
+            out = sess.call(api, cmd, decode=decode, **kw)
         violations = []
         streams = sess.sim.all_streams[n_before:]
         main = [st for st in streams if st.dest == dest]
